@@ -264,7 +264,7 @@ func runC15(r *rep.Report, thorough bool) error {
 			if je, ok := specEnums[sp.Case]; ok {
 				judgeEnv = je
 			} else {
-				je := withSpecEnums(d, a, judgeEnv)
+				je := withSpecDecls(d, a, judgeEnv, true)
 				specEnums[sp.Case] = je
 				judgeEnv = je
 			}
